@@ -310,6 +310,18 @@ impl Interp {
 		for c in &spec.children {
 			match c {
 				ChildSpec::New(t) => children.push(RChild::New(self.resolve_tree(col, t, allow_existing, depth + 1))),
+				ChildSpec::ExistingNode(n) => {
+					let n = *n as usize;
+					let live = match &self.model.cols[col as usize] {
+						ColModel::Multi(m) => m.nodes.get(n).map_or(false, |x| x.live),
+						_ => false,
+					};
+					if allow_existing && live && self.addr.contains_key(&(col, n)) {
+						children.push(RChild::Existing(n));
+					} else {
+						children.push(RChild::New(RTree { data: vec![0xed, n as u8], children: vec![] }));
+					}
+				},
 				ChildSpec::Existing(tsel, nsel) => {
 					let mut done = false;
 					if allow_existing {
